@@ -12,7 +12,7 @@ From RU Require Import Base.Prelude Base.Utf8 Base.Utf8Facts Model.AsciiSet Gen.
   Proofs.C01_EqRun Proofs.C01_EqEnc Proofs.C01_EqApi Proofs.C01_EqOpaque Proofs.C01_EqDots Proofs.C01_EqPathSpec
   Proofs.C06_List Proofs.C06_Steps Proofs.C01_EqRef Proofs.C01_EqPath Proofs.C01_EqOverflow
   Proofs.C01_EqAuthSpec Proofs.C01_EqAuthModel Proofs.C01_EqAuth Proofs.C01_EqClasses Proofs.C01_EqClasses2
-  Proofs.C01_EqSpSpec Proofs.C01_EqSpPath Proofs.C01_EqSpRel Proofs.C01_EqSpModel.
+  Proofs.C01_EqSpSpec Proofs.C01_EqSpPath Proofs.C01_EqSpRel Proofs.C01_EqSpModel Proofs.C01_Override.
 
 (* ================= small facts ================= *)
 Lemma special_type sch : is_special_scheme sch = true -> list_eqb sch str_file = false ->
@@ -276,5 +276,11 @@ Proof.
     + exists e. reflexivity.
     + unfold to_u32 in Eu. destruct (nlen sch <=? U32_MAX_P); discriminate Eu.
 Qed.
+
+(* a UTF-8 encoding override changes nothing (Proofs/C01_Override.v) *)
+Theorem class_special_utf8 input : usv_list input -> in_class_special input = true ->
+  host_agree_sp hp hd shp shs (class_host_text_s input) ->
+  agree_rel_strict dbg shs (parse_url dbg hp hpo hd (Some utf8_encode) None input) (spec_basic_url_parse shp input None).
+Proof. intros Hu Hc HA. rewrite parse_url_utf8_override. apply class_special; assumption. Qed.
 
 End Class.
